@@ -230,7 +230,7 @@ Proof.
   - destruct (low_ix ix st) as [ix'|e]; cbn [bind] in H; [|discriminate].
     destruct (take st) as [[t s1]|e] eqn:Ht; cbn [bind] in H; [|discriminate].
     inversion H; subst. right. exists t. auto.
-  - destruct (alook r (l_rf st)); inversion H; subst. left; auto.
+  - destruct (rf_lookup r st); inversion H; subst. left; auto.
   - destruct (alook v (l_lv st)); inversion H; subst. left; auto.
 Qed.
 
@@ -243,7 +243,7 @@ Proof.
       inversion H; subst. apply take_err in Ht. destruct Ht as [_ Ht]. lia.
     + inversion H; subst. destruct ix; cbn [low_ix] in Hix; [discriminate|].
       destruct (alook v (l_lv st)); [discriminate|]. inversion Hix. discriminate.
-  - destruct (alook r (l_rf st)); [discriminate|]. inversion H. discriminate.
+  - destruct (rf_lookup r st); [discriminate|]. inversion H. discriminate.
   - destruct (alook v (l_lv st)); [discriminate|]. inversion H. discriminate.
 Qed.
 
@@ -408,6 +408,7 @@ Proof.
       unfold same_ap in *. destruct Em, Ed. split; congruence.
     + intros _ _. eapply low_meas_err; eauto.
   - (* SMeasReg *) intros q ip r _ st. cbn [lower_stmt].
+    destruct (alook r (l_rf st)); [oor_trivial|].
     destruct (low_meas q ip true st) as [[[m c] st1]|e] eqn:Em; cbn [bind].
     + apply same_good. apply low_meas_good in Em. unfold same_ap in *; cbn; auto.
     + intros _ _. eapply low_meas_err; eauto.
@@ -434,7 +435,7 @@ Proof.
         -- apply take_len_count in Ht. destruct Ht as [_ ->]. lia.
     + intros Hl Hc. apply take_err in Ht. destruct Ht as [_ Ht]. unfold NREGS in *. lia.
   - (* SRegAdd *) intros r o m _ st. cbn [lower_stmt need].
-    destruct (alook r (l_rf st)) as [[[] k]|]; try oor_trivial.
+    destruct (rf_lookup r st) as [[[] k]|]; try oor_trivial.
     destruct (low_src o st) as [[[[lo y] ts] st1]|e] eqn:Hs; cbn [bind].
     + apply held_release. eapply low_src_held; eauto.
     + eapply low_src_err; eauto.
@@ -460,6 +461,7 @@ Proof.
     + intros Hl Hc. apply IH; [exact Hl|lia].
   - (* SLoop *) intros cb v oreg start stop step body IH Hp st. destruct oreg; [discriminate|].
     cbn [plain] in Hp. specialize (IH Hp). cbn [lower_stmt need].
+    destruct (alook v (l_lv st)); [oor_trivial|].
     destruct (take st) as [[r st1]|e] eqn:Ht; cbn [bind].
     + specialize (IH (bind_lvr v r st1)).
       destruct (lower_block fd body (bind_lvr v r st1)) as [[cbody st2]|e]; cbn [bind].
@@ -473,6 +475,7 @@ Proof.
     + intros Hl Hc. apply take_err in Ht. destruct Ht as [_ Ht]. unfold NREGS in *. lia.
   - (* SForeach *) intros enum v a body IH Hp st. cbn [plain] in Hp. specialize (IH Hp). cbn [lower_stmt need].
     destruct (alook a (l_len st)); [|oor_trivial].
+    destruct (alook v (l_lv st)); [oor_trivial|].
     destruct (take st) as [[r st1]|e] eqn:Ht; cbn [bind].
     + specialize (IH (bind_lvr v r st1)).
       destruct (lower_block fd body (bind_lvr v r st1)) as [[cbody st2]|e]; cbn [bind].
@@ -486,6 +489,7 @@ Proof.
     + intros Hl Hc. apply take_err in Ht. destruct Ht as [_ Ht]. unfold NREGS in *. lia.
   - (* SLoopUntil *) intros v maxit body IHb cx bound cleanup IHc Hp st. cbn [plain] in Hp.
     apply andb_prop in Hp. destruct Hp as [Hp1 Hp2]. specialize (IHb Hp1). specialize (IHc Hp2). cbn [lower_stmt need].
+    destruct (alook v (l_lv st)); [oor_trivial|].
     destruct (take st) as [[r st1]|e] eqn:Ht; cbn [bind].
     + specialize (IHb (bind_lvr v r st1)).
       destruct (take_len_count _ _ _ Ht) as [Hl1 Hc1].
